@@ -25,12 +25,28 @@ Sub-checks (signature field 'check'):
   close       CloseEnumeration on an open session succeeds
   leak        whenever all sessions are at eos or closed, the server's context table is empty
 
-Signature: {'check', 'what', 'op' (Open operation / Pull kind / CloseEnumeration), 'moc'
-(MaxObjectCount class: None, 0, negative, lt-remaining, eq-remaining, gt-remaining, positive)};
-the case is the shortest event history (BFS order) on a world with n objects.
+Signature: {'check', 'what', 'op', 'moc'}.
+  op   Open operation name | '<instances|paths|query>-session/<Pull operation used>' for a pull on
+       an open session | plain Pull operation name for stale/made-up contexts | CloseEnumeration
+  moc  class of MaxObjectCount relative to what the session still has to deliver: None, 0,
+       negative, lt-remaining, eq-remaining, gt-remaining, positive (stale/made-up), '-' where the
+       answer is decided before MaxObjectCount is looked at (refusals, wrong-kind acceptance)
+The case is {'n': number of objects, 'history': shortest event history (BFS order)}.
+
+Events (JSON lists):  ['open', op, MaxObjectCount(, parameter variant)]  ['pull', session index,
+Pull operation, MaxObjectCount]  ['close', session index]  ['xpull', made-up context id, Pull
+operation, MaxObjectCount]  ['xclose', made-up context id]  ['rmns'].  'pull'/'close' use the
+last context the session was given, whether it is still valid or not.
+
+World: namespace root/s (not the default namespace, so that it can be removed) with classes
+TST_A (n instances), TST_B (one instance) and the association TST_AB linking the TST_B instance
+to every TST_A instance: all seven Open operations have n results.
+
+The state graphs are small (a session is a cursor), so the BFS always reaches its fixpoint long
+before the depth bound: on the unchanged tree the complete reachable graph for the event alphabet
+is explored (evidence counter bfs_complete_state_graph == bfs_runs).
 """
 import json
-import os
 import pickle
 import re
 
@@ -47,7 +63,8 @@ ID = 'C14'
 RULE = ('a case is one transition (state, event) of the open/pull/close state graph; the graph is '
         'explored breadth-first from an empty server with canonical-state dedup, every event '
         'executed by the real FakedWBEMConnection; a transition is non-trivial unless pywbem '
-        'rejected the call locally (ValueError/TypeError before reaching the server)')
+        'rejected the call locally (ValueError/TypeError before reaching the server); one BFS per '
+        '(number of objects n, Open operation of the 1st/2nd/3rd session of a history)')
 ASSUMPTIONS = [
     'object identity = class name, keybindings (host/namespace of paths ignored) and property '
     'values; order of delivery is not demanded',
@@ -71,9 +88,15 @@ ASSUMPTIONS = [
 ]
 _COMMON = {'open_ops': 7, 'second_session_ops': '7 + none', 'pull_kinds': 3,
            'open_MaxObjectCount': 'None,0,1,2,N-1,N,N+1 (+ 6 parameter variants x {None,1})',
-           'pull_MaxObjectCount': '0,1,2,remaining,remaining+1', 'events_per_session': 6,
+           'pull_MaxObjectCount': '0,1,2,remaining,remaining+1',
+           'events_per_session': 6,
+           'depth_bound': '6 x sessions events per history (never binding: fixpoint is reached first)',
+           'stale_context_uses': '3 pull kinds x MaxObjectCount {0,1} + CloseEnumeration',
            'made_up_contexts': 2, 'remove_namespace_event': True}
 BOUNDS = {
+    # sessions=2: every ordered pair of Open operations (and single sessions) for every N;
+    # three_sessions: all 343 triples for all_ops_N, the 27 triples over one Open operation per
+    # pull kind for representative_ops_N; small_N only groups cheap runs into one shard
     'quick': dict(_COMMON, N=[0, 1, 2, 3, 4], small_N=2, sessions=2,
                   three_sessions={'all_ops_N': [], 'representative_ops_N': [[0, 1, 2]]}),
     'thorough': dict(_COMMON, N=[0, 1, 2, 3, 4, 5, 6], small_N=3, sessions=2,
@@ -84,7 +107,7 @@ NS = 'root/s'                      # the sessions' namespace (not the default on
 INVCTX = pywbem.CIM_ERR_INVALID_ENUMERATION_CONTEXT
 INVNS = pywbem.CIM_ERR_INVALID_NAMESPACE
 
-# Open operation -> (documented pull kind, name of result attribute)
+# Open operation -> documented pull kind
 OPS = {
     'OpenEnumerateInstances': 'PullInstancesWithPath',
     'OpenEnumerateInstancePaths': 'PullInstancePaths',
